@@ -162,35 +162,62 @@ def s4qoms24 (perigee : α) : α × α :=
     (s4 / XKMPER + AE, q)
   else (KS, QOMS2T)
 
-/-- `_SGDP4Base.__init__` (orbital.py:616-800) -/
-def init (e : Elements α) : Except InitErr (Params α) :=
-  match checkElements e with
-  | some err => .error err
-  | none =>
+/-- quantities of `_calculate_basic_orbit_params` and the inclination terms (orbital.py:636-650, 692-704) -/
+structure Basic (α : Type) where
+  cosIO : α
+  sinIO : α
+  theta2 : α
+  x3thm1 : α
+  x1mth2 : α
+  x7thm1 : α
+  betao : α
+  betao2 : α
+  xnodp : α
+  aodp : α
+  perigee : α
+  apogee : α
+  period : α
+
+def basic (e : Elements α) : Basic α :=
+  let eo := e.eo
+  let cosIO := Num.cos e.xincl
+  let sinIO := Num.sin e.xincl
+  let theta2 := sq cosIO
+  let x3thm1 := (3 : α) * theta2 - (1 : α)
+  let x1mth2 := (1 : α) - theta2
+  let x7thm1 := (7 : α) * theta2 - (1 : α)
+  -- _calculate_basic_orbit_params (692-704)
+  let a1 := Num.rpow (XKE / e.xn_0) ((2 : α) / (3 : α))
+  let betao2 := (1 : α) - sq eo
+  let betao := Num.sqrt betao2
+  let temp0 := (1.5 : α) * CK2 * x3thm1 / (betao * betao2)
+  let del1 := temp0 / sq a1
+  let a0 := a1 * ((1 : α) - del1 * ((1 : α) / (3 : α) + del1 * ((1 : α) + del1 * (134 : α) / (81 : α))))
+  let del0 := temp0 / sq a0
+  let xnodp := e.xn_0 / ((1 : α) + del0)
+  let aodp := a0 / ((1 : α) - del0)
+  { cosIO := cosIO, sinIO := sinIO, theta2 := theta2, x3thm1 := x3thm1, x1mth2 := x1mth2, x7thm1 := x7thm1,
+    betao := betao, betao2 := betao2, xnodp := xnodp, aodp := aodp,
+    perigee := (aodp * ((1 : α) - eo) - AE) * XKMPER,
+    apogee := (aodp * ((1 : α) + eo) - AE) * XKMPER,
+    period := ((2 : α) * Num.pi * (1440 : α) / XMNPDA) / xnodp }
+
+/-- `_set_mode` (706-715) for the non-deep case -/
+def modeOf (perigee : α) : Mode := if Num.lt perigee PERIGEE_SIMP then .nearSimp else .nearNorm
+
+/-- all coefficients of `_SGDP4Base.__init__` after the guards (orbital.py:654-688, 717-800) -/
+def coeffs (e : Elements α) (b : Basic α) (mode : Mode) : Params α :=
     let eo := e.eo
-    let cosIO := Num.cos e.xincl
-    let sinIO := Num.sin e.xincl
-    let theta2 := sq cosIO
-    let x3thm1 := (3 : α) * theta2 - (1 : α)
-    let x1mth2 := (1 : α) - theta2
-    let x7thm1 := (7 : α) * theta2 - (1 : α)
-    -- _calculate_basic_orbit_params (692-704)
-    let a1 := Num.rpow (XKE / e.xn_0) ((2 : α) / (3 : α))
-    let betao2 := (1 : α) - sq eo
-    let betao := Num.sqrt betao2
-    let temp0 := (1.5 : α) * CK2 * x3thm1 / (betao * betao2)
-    let del1 := temp0 / sq a1
-    let a0 := a1 * ((1 : α) - del1 * ((1 : α) / (3 : α) + del1 * ((1 : α) + del1 * (134 : α) / (81 : α))))
-    let del0 := temp0 / sq a0
-    let xnodp := e.xn_0 / ((1 : α) + del0)
-    let aodp := a0 / ((1 : α) - del0)
-    let perigee := (aodp * ((1 : α) - eo) - AE) * XKMPER
-    let apogee := (aodp * ((1 : α) + eo) - AE) * XKMPER
-    let period := ((2 : α) * Num.pi * (1440 : α) / XMNPDA) / xnodp
-    -- _set_mode (706-715)
-    if Num.ge period PERIOD_DEEP then .error .deepSpace else
-    let mode : Mode := if Num.lt perigee PERIGEE_SIMP then .nearSimp else .nearNorm
-    let (s4, qoms24) := s4qoms24 perigee
+    let cosIO := b.cosIO
+    let sinIO := b.sinIO
+    let theta2 := b.theta2
+    let x3thm1 := b.x3thm1
+    let x1mth2 := b.x1mth2
+    let betao := b.betao
+    let betao2 := b.betao2
+    let xnodp := b.xnodp
+    let aodp := b.aodp
+    let (s4, qoms24) := s4qoms24 b.perigee
     let tsi := (1 : α) / (aodp - s4)
     let eta := aodp * eo * tsi
     let eeta := eo * eta
@@ -249,14 +276,23 @@ def init (e : Elements α) : Except InitErr (Params α) :=
     let t3cof := d2 + (2 : α) * c1sq
     let t4cof := (0.25 : α) * ((3 : α) * d3 + c1 * ((12 : α) * d2 + (10 : α) * c1sq))
     let t5cof := (0.2 : α) * ((3 : α) * d4 + (12 : α) * c1 * d3 + (6 : α) * sq d2 + (15 : α) * c1sq * ((2 : α) * d2 + c1sq))
-    .ok { mode := mode, eo := eo, xincl := e.xincl, xno := e.xno, bstar := e.bstar, omegao := e.omegao, xmo := e.xmo,
+    { mode := mode, eo := eo, xincl := e.xincl, xno := e.xno, bstar := e.bstar, omegao := e.omegao, xmo := e.xmo,
           xnodeo := e.xnodeo, xn_0 := e.xn_0, cosIO := cosIO, sinIO := sinIO, x3thm1 := x3thm1, x1mth2 := x1mth2,
-          x7thm1 := x7thm1, xnodp := xnodp, aodp := aodp, perigee := perigee, apogee := apogee, period := period,
+          x7thm1 := b.x7thm1, xnodp := xnodp, aodp := aodp, perigee := b.perigee, apogee := b.apogee, period := b.period,
           betao := betao, betao2 := betao2, s4 := s4, qoms24 := qoms24, tsi := tsi, eta := eta,
           c1 := c1, c2 := c2, c3 := c3, c4 := c4, c5 := c5, omgcof := omgcof,
           xmdot := xmdot, omgdot := omgdot, xnodot := xnodot, xhdot1 := xhdot1, xmcof := xmcof, xnodcf := xnodcf,
           t2cof := t2cof, xlcof := xlcof, aycof := aycof, cosXMO := cosXMO, sinXMO := sinXMO, delmo := delmo,
           d2 := d2, d3 := d3, d4 := d4, t3cof := t3cof, t4cof := t4cof, t5cof := t5cof }
+
+/-- `_SGDP4Base.__init__` (orbital.py:616-800): guards, then `basic`, mode, `coeffs` -/
+def init (e : Elements α) : Except InitErr (Params α) :=
+  match checkElements e with
+  | some err => .error err
+  | none =>
+    let b := basic e
+    if Num.ge b.period PERIOD_DEEP then .error .deepSpace
+    else .ok (coeffs e b (modeOf b.perigee))
 
 inductive PropErr
   | notImplemented   -- `propagate`: mode ≠ NEAR_NORM
@@ -329,8 +365,17 @@ structure Kep (α : Type) where
   u : α
   rk : α
 
-/-- `_Keplerians.calculate` (orbital.py:1035-1204) for minutes-since-epoch `ts` -/
-def calculate (p : Params α) (ts : α) : Except PropErr (Kep α) :=
+/-- secular gravity and drag update (orbital.py:1040-1093) -/
+structure Secular (α : Type) where
+  xmp : α
+  xnode : α
+  omega : α
+  tempe : α
+  templ : α
+  a : α
+  e0 : α     -- eo - tempe, before clamping
+
+def secular (p : Params α) (ts : α) : Secular α :=
   let xmp0 := p.xmo + p.xmdot * ts
   let xnode := p.xnodeo + ts * (p.xnodot + ts * p.xnodcf)
   let delm := p.xmcof * (cube ((1 : α) + p.eta * Num.cos xmp0) - p.delmo)
@@ -343,34 +388,48 @@ def calculate (p : Params α) (ts : α) : Except PropErr (Kep α) :=
                else ts * ts * (p.t2cof + ts * (p.t3cof + ts * (p.t4cof + ts * p.t5cof)))
   let tempa := if p.mode == .nearSimp then (1 : α) - ts * p.c1
                else (1 : α) - (ts * (p.c1 + ts * (p.d2 + ts * (p.d3 + ts * p.d4))))
-  let a := p.aodp * sq tempa
-  if Num.lt a (1 : α) then .error .crashedA else
-  let e0 := p.eo - tempe
-  if Num.lt e0 ECC_LIMIT_LOW then .error .eccLow else
+  { xmp := xmp, xnode := xnode, omega := omega, tempe := tempe, templ := templ,
+    a := p.aodp * sq tempa, e0 := p.eo - tempe }
+
+/-- `_calculate_e`: clamp into [ECC_EPS, ECC_LIMIT_HIGH] -/
+def clampE (e0 : α) : α :=
   let e1 := if Num.lt e0 ECC_EPS then ECC_EPS else e0
-  let e := if Num.gt e1 ECC_LIMIT_HIGH then ECC_LIMIT_HIGH else e1
+  if Num.gt e1 ECC_LIMIT_HIGH then ECC_LIMIT_HIGH else e1
+
+/-- long-period periodics and the argument of Kepler's equation (orbital.py:1098-1124, 1147) -/
+structure LongPeriod (α : Type) where
+  e : α
+  axn : α
+  ayn : α
+  elsq : α
+  xlt : α
+  capu : α
+
+def longPeriod (p : Params α) (s : Secular α) : LongPeriod α :=
+  let e := clampE s.e0
   let beta2 := (1 : α) - sq e
-  let sinOMG := Num.sin omega
-  let cosOMG := Num.cos omega
-  let t0 := (1 : α) / (a * beta2)
+  let sinOMG := Num.sin s.omega
+  let cosOMG := Num.cos s.omega
+  let t0 := (1 : α) / (s.a * beta2)
   let axn := e * cosOMG
   let ayn := e * sinOMG + t0 * p.aycof
-  let elsq := sq axn + sq ayn
-  if Num.ge elsq (1 : α) then .error .elsqGe1 else
-  let ecc := Num.sqrt elsq
-  let xl := xmp + omega + xnode + p.xnodp * templ
+  let xl := s.xmp + s.omega + s.xnode + p.xnodp * s.templ
   let xlt := xl + t0 * p.xlcof * axn
-  let capu := Num.fmod (xlt - xnode) ((2 : α) * Num.pi)
-  let nw := newton axn ayn capu ecc
-  let t1 := (1 : α) - elsq
+  { e := e, axn := axn, ayn := ayn, elsq := sq axn + sq ayn, xlt := xlt,
+    capu := Num.fmod (xlt - s.xnode) ((2 : α) * Num.pi) }
+
+/-- short-period periodics given the Kepler iterate (orbital.py:1128-1190) -/
+def shortPeriod (p : Params α) (s : Secular α) (l : LongPeriod α) (nw : Newton α) : Kep α :=
+  let a := s.a
+  let t1 := (1 : α) - l.elsq
   let betal := Num.sqrt t1
   let pl := a * t1
   let r := a * ((1 : α) - nw.ecosE)
   let invR := (1 : α) / r
   let temp2 := a * invR
   let temp3 := (1 : α) / ((1 : α) + betal)
-  let cosu := temp2 * (nw.cosEPW - axn + ayn * nw.esinE * temp3)
-  let sinu := temp2 * (nw.sinEPW - ayn - axn * nw.esinE * temp3)
+  let cosu := temp2 * (nw.cosEPW - l.axn + l.ayn * nw.esinE * temp3)
+  let sinu := temp2 * (nw.sinEPW - l.ayn - l.axn * nw.esinE * temp3)
   let u := Num.atan2 sinu cosu
   let sin2u := (2 : α) * sinu * cosu
   let cos2u := (2 : α) * sq cosu - (1 : α)
@@ -379,19 +438,29 @@ def calculate (p : Params α) (ts : α) : Except PropErr (Kep α) :=
   let tk2 := tk1 * ipl
   let rk := r * ((1 : α) - (1.5 : α) * tk2 * betal * p.x3thm1) + (0.5 : α) * tk1 * p.x1mth2 * cos2u
   let uk := u - (0.25 : α) * tk2 * p.x7thm1 * sin2u
-  let xnodek := xnode + (1.5 : α) * tk2 * p.cosIO * sin2u
+  let xnodek := s.xnode + (1.5 : α) * tk2 * p.cosIO * sin2u
   let xinc := p.xincl + (1.5 : α) * tk2 * p.cosIO * p.sinIO * cos2u
-  if Num.lt rk (1 : α) then .error .crashedRk else
   let sqa := Num.sqrt a
   let tv := XKE / (a * sqa)
   let kv := XKMPER / AE * XMNPDA / (86400 : α)
   let rdotk := (XKE * sqa * nw.esinE * invR - tv * tk1 * p.x1mth2 * sin2u) * kv
   let rfdotk := (XKE * Num.sqrt pl * invR + tv * tk1 * (p.x1mth2 * cos2u + (1.5 : α) * p.x3thm1)) * kv
-  .ok { ecc := ecc, radius := rk * XKMPER / AE, theta := uk, eqinc := xinc, ascn := xnodek, argp := omega,
-        smjaxs := a * XKMPER / AE, rdotk := rdotk, rfdotk := rfdotk,
-        xmp := xmp, xnode := xnode, omega := omega, tempe := tempe, templ := templ, a := a, e := e,
-        axn := axn, ayn := ayn, xlt := xlt, capu := capu, epw := nw.epw, nrIters := nw.iters, elsq := elsq,
-        pl := pl, r := r, u := u, rk := rk }
+  { ecc := Num.sqrt l.elsq, radius := rk * XKMPER / AE, theta := uk, eqinc := xinc, ascn := xnodek, argp := s.omega,
+    smjaxs := a * XKMPER / AE, rdotk := rdotk, rfdotk := rfdotk,
+    xmp := s.xmp, xnode := s.xnode, omega := s.omega, tempe := s.tempe, templ := s.templ, a := a, e := l.e,
+    axn := l.axn, ayn := l.ayn, xlt := l.xlt, capu := l.capu, epw := nw.epw, nrIters := nw.iters, elsq := l.elsq,
+    pl := pl, r := r, u := u, rk := rk }
+
+/-- `_Keplerians.calculate` (orbital.py:1035-1204) for minutes-since-epoch `ts`: the four guards in source order -/
+def calculate (p : Params α) (ts : α) : Except PropErr (Kep α) :=
+  let s := secular p ts
+  if Num.lt s.a (1 : α) then .error .crashedA else
+  if Num.lt s.e0 ECC_LIMIT_LOW then .error .eccLow else
+  let l := longPeriod p s
+  if Num.ge l.elsq (1 : α) then .error .elsqGe1 else
+  let nw := newton l.axn l.ayn l.capu (Num.sqrt l.elsq)
+  let k := shortPeriod p s l nw
+  if Num.lt k.rk (1 : α) then .error .crashedRk else .ok k
 
 /-- `_SGDP4.propagate` (orbital.py:982-989): only NEAR_NORM is answered -/
 def propagate (p : Params α) (ts : α) : Except PropErr (Kep α) :=
